@@ -144,6 +144,16 @@ for line in open(os.path.join(ROOT, "properties.jsonl")):
     r = json.loads(line)
     TITLES[r["id"]] = r["title"]
 
+P["C18"] = dict(
+    level="model_checking", engine="transform",
+    technique="TLA+ specification of the transformation (Transform.tla: verification methods, relationships, contexts, "
+              "SortOps / Dedup, metadata presence) checked by TLC; every case replayed into didtransformer.TransformDocument",
+    text="The expected resolution result is computed by the specification for every key variant x option combination, "
+         "every short operation list with arbitrary (time, number) pairs and every combination of metadata items; TLC "
+         "checks exactly-once and sortedness on the model and the real transformer's whole output is compared case by "
+         "case.",
+    ref="DESIGN.md 3 C18")
+
 NOT_YET = {}
 
 
